@@ -3,7 +3,7 @@
 From Coq Require Import ZArith List Bool.
 From NS Require Import Base.NoteSeq Gen.G10 Model.ChordTranspose Model.Transpose
                        Proofs.TransposeChord Proofs.Transpose.
-From NS Require Gen.Tr Proofs.TrEquiv10.
+From NS Require Gen.Tr Proofs.TrEquiv10 Proofs.TrCode10.
 Import ListNotations.
 Local Open Scope Z_scope.
 
@@ -303,3 +303,20 @@ Theorem C10_source_melody_transpose_event : forall k lo hi e,
   NS.Gen.Tr.tr_melody_transpose_event k lo hi e = Some (mel_event k lo hi e).
 Proof. exact NS.Proofs.TrEquiv10.tr_melody_transpose_event_eq. Qed.
 Print Assumptions C10_source_melody_transpose_event.
+
+(** The same clauses stated DIRECTLY on the code as it reads now (the Gallina re-translated from the source on every
+    run): no hand-written model occurs in these statements. *)
+Theorem C10_code_melody_transpose_event : forall k lo hi e,
+  exists e', NS.Gen.Tr.tr_melody_transpose_event k lo hi e = Some e' /\
+    (e < 0 -> e' = e) /\
+    (0 <= e -> e' mod 12 = (e + k) mod 12) /\
+    (0 <= e -> hi - lo >= 12 -> lo <= e' < hi /\ (lo <= e + k < hi -> e' = e + k)).
+Proof. exact NS.Proofs.TrCode10.code_melody_transpose_event. Qed.
+Print Assumptions C10_code_melody_transpose_event.
+
+Theorem C10_code_clamp_transpose : forall a ns_min ns_max lo hi,
+  lo <= ns_min -> ns_max <= hi ->
+  exists c, NS.Gen.Tr.tr_clamp_transpose a ns_min ns_max lo hi = Some c /\
+    lo <= ns_min + c /\ ns_max + c <= hi /\ Z.abs c <= Z.abs a /\ (0 <= a -> 0 <= c) /\ (a < 0 -> c <= 0).
+Proof. exact NS.Proofs.TrCode10.code_clamp_transpose. Qed.
+Print Assumptions C10_code_clamp_transpose.
